@@ -55,6 +55,7 @@ func (m c09Msg) typeLabel() string {
 
 type c09Case struct {
 	Monitor bool     `json:"monitor"`
+	Verbose bool     `json:"verbose,omitempty"`
 	Seq     []c09Msg `json:"messages"`
 }
 
@@ -66,6 +67,9 @@ func (c c09Case) String() string {
 	k := "adv"
 	if c.Monitor {
 		k = "mon"
+	}
+	if c.Verbose {
+		k += "(verbose)"
 	}
 	return k + ":" + strings.Join(s, " ")
 }
@@ -88,12 +92,15 @@ func c09Scenario(c c09Case, res *c09Result) *vsched.Scenario {
 			var returned func() (bool, error)
 			if c.Monitor {
 				m := newMonWorld("eth0", false)
+				m.mon.verbose = c.Verbose
 				w, cancel = m.world, m.cancel
 				returned = m.returned
 				x.Spawn("monitor", m.run)
 			} else {
 				// Long intervals: no periodic RA interferes within the script.
-				a := newAdvWorld(staticCfg("eth0", 200*time.Second, 600*time.Second), true, false)
+				vcfg := staticCfg("eth0", 200*time.Second, 600*time.Second)
+				vcfg.Verbose = c.Verbose
+				a := newAdvWorld(vcfg, true, false)
 				w, cancel = a.world, a.cancel
 				returned = func() (bool, error) { r, e, _ := a.returned(); return r, e }
 				x.Spawn("advertiser", a.run)
@@ -240,7 +247,7 @@ func c09Run(t *testing.T, c c09Case) (*vsched.Exec, [][2]string) {
 func TestVerifC09(t *testing.T) {
 	r := ev.Begin("C09", "sequences")
 	defer r.End(t)
-	r.Rule = "message sequences fed to the real advertiser and the real monitor (instrumented, virtual clock, canonical schedule): (a) every single message type {RS,RA,NS,NA} x every hop limit 0..255; (b) all sequences of length<=L over {valid RS, RS hop 64, NS hop 255, RA hop 1, transient receive timeout (at most 4)} followed by a valid RS; (c) runs of 1..12 consecutive invalid messages (pure, mixed, with a timeout inside; retry budget is 5) followed by a valid RS; oracle: invalid counter = number of invalid messages by type, handled/monitor counters = valid ones, one unicast RA per valid RS, every message read within 310ms of its arrival (receive back-off never grows with invalid traffic), Run still running and no re-dial at the end; states = sequences executed; non-trivial = sequence contains an invalid message; distinct = distinct (mode, sequence)"
+	r.Rule = "message sequences fed to the real advertiser and the real monitor (with and without verbose logging) (instrumented, virtual clock, canonical schedule): (a) every single message type {RS,RA,NS,NA} x every hop limit 0..255; (b) all sequences of length<=L over {valid RS, RS hop 64, NS hop 255, RA hop 1, transient receive timeout (at most 4)} followed by a valid RS; (c) runs of 1..12 consecutive invalid messages (pure, mixed, with a timeout inside; retry budget is 5) followed by a valid RS; oracle: invalid counter = number of invalid messages by type, handled/monitor counters = valid ones, one unicast RA per valid RS, every message read within 310ms of its arrival (receive back-off never grows with invalid traffic), Run still running and no re-dial at the end; states = sequences executed; non-trivial = sequence contains an invalid message; distinct = distinct (mode, sequence)"
 	if r.Replay != nil {
 		var c c09Case
 		if err := json.Unmarshal(r.Replay, &c); err != nil {
@@ -292,6 +299,9 @@ func TestVerifC09(t *testing.T) {
 					continue
 				}
 				one(c09Case{Monitor: mon, Seq: []c09Msg{{typ, h}, {"RS", 255}}})
+				if h == 64 || h == 0 || h == 254 {
+					one(c09Case{Monitor: mon, Verbose: true, Seq: []c09Msg{{typ, h}, {"RS", 255}}})
+				}
 			}
 		}
 		// Long runs of consecutive invalid messages (well beyond the retry budget of 5),
@@ -313,6 +323,10 @@ func TestVerifC09(t *testing.T) {
 				}
 				c.Seq = append(c.Seq, c09Msg{"RS", 255})
 				one(c)
+				if k <= 6 {
+					c.Verbose = true // verbose logging must not change what is delivered
+					one(c)
+				}
 			}
 		}
 		alpha := []c09Msg{{"RS", 255}, {"RS", 64}, {"NS", 255}, {"RA", 1}, {"TO", 0}}
